@@ -92,7 +92,7 @@ CLAIMED = {
                 "Python and compares it with Coq's on every case; after a generator change the two disagreed (two "
                 "literals differing only in their language tag) and the check stopped with INTERNAL-ERROR on every "
                 "seeded run until repaired (d041ea9, DESIGN.md section 10); the committed evidence is the thorough "
-                "pass after the repair; the six C03 seeds await a re-run.",
+                "pass after the repair; seeds C03-m1 ... m3 are caught again, the re-run of m4-m6 was pending.",
         "technique": "Coq theorems about the pipeline model composed with P1; ShEx semantics written as a decidable "
                      "Spec and extracted to OCaml as the oracle on real output; differential correspondence",
     },
